@@ -73,11 +73,13 @@ Y1Factor(r1, hb) ==
 StockIndexBefore(startMonth) == ((startMonth - 1) + 11) % 12      \* 0-based index of the month before the start month
 
 -----------------------------------------------------------------------------
+\* (Never: the `continued` schedules - demand lasts the whole horizon, whatever its length)
+Never == 999
 Configs(full) ==
   IF full THEN [reloc : BOOLEAN, expand : BOOLEAN, gh : BOOLEAN, ghDelay : {0, 2, 4}, indDelay : {0, 2, 5}, swDelay : {0, 1, 3},
-                feedMonths : {0, 3, 12}, bioMonths : {0, 2}]
+                feedMonths : {0, 3, 12, Never}, bioMonths : {0, 2, Never}]
   ELSE {[reloc |-> r, expand |-> r /\ e, gh |-> g, ghDelay |-> IF g THEN (IF r THEN (IF e THEN 4 ELSE 2) ELSE 0) ELSE 0, indDelay |-> IF r THEN 2 ELSE 0,
-         swDelay |-> IF g THEN 1 ELSE 3, feedMonths |-> IF r THEN 3 ELSE 12, bioMonths |-> IF g THEN 2 ELSE 0] :
+         swDelay |-> IF g THEN 1 ELSE 3, feedMonths |-> IF r THEN 3 ELSE (IF g THEN Never ELSE 12), bioMonths |-> IF g THEN 2 ELSE (IF r THEN Never ELSE 0)] :
         r \in BOOLEAN, e \in BOOLEAN, g \in BOOLEAN}
 
 \* calendar facts for every horizon
